@@ -83,7 +83,9 @@ func (p *dgramPeer) take() [][]byte {
 
 func (p *dgramPeer) close() { _ = p.c.Close(); <-p.done }
 
-func runSrvTCP(t *testing.T, c caseDef) []string {
+// useDefault: no monitor option is given: the server's DefaultConfig decides (tcp: keep-alive with 2 retries over 16 s;
+// dtls: plain monitor, 16 s), and the closing is observed through the connection's on-close callback.
+func runSrvTCP(t *testing.T, c caseDef, useDefault bool) []string {
 	out := make([]string, len(c.ops))
 	synctest.Test(t, func(t *testing.T) {
 		start := time.Now()
@@ -114,9 +116,27 @@ func runSrvTCP(t *testing.T, c caseDef) []string {
 			options.WithErrors(func(error) {}),
 			options.WithMessagePool(pool.New(64, 2048)),
 			options.WithPeriodicRunner(func(f func(now time.Time) bool) { tickFn = f }),
-			options.WithOnNewConn(func(cc *tcpclient.Conn) { mu.Lock(); conns = append(conns, cc); mu.Unlock() }),
+			options.WithOnNewConn(func(cc *tcpclient.Conn) {
+				mu.Lock()
+				idx := len(conns)
+				conns = append(conns, cc)
+				mu.Unlock()
+				if useDefault {
+					cc.AddOnClose(func() {
+						switch idx {
+						case 0:
+							closed = true
+							log.add("close")
+						case 2:
+							log.add("close-talkative")
+						}
+					})
+				}
+			}),
 		}
-		if c.maxRetries < 0 {
+		if useDefault {
+			// nothing: DefaultConfig.CreateInactivityMonitor
+		} else if c.maxRetries < 0 {
 			opts = append(opts, options.WithInactivityMonitor(c.period, onInactive))
 		} else {
 			opts = append(opts, options.WithKeepAlive(uint32(c.maxRetries), c.period*time.Duration(c.maxRetries+1), onInactive))
@@ -258,7 +278,7 @@ func runSrvTCP(t *testing.T, c caseDef) []string {
 	return out
 }
 
-func runSrvDTLS(t *testing.T, c caseDef) []string {
+func runSrvDTLS(t *testing.T, c caseDef, useDefault bool) []string {
 	out := make([]string, len(c.ops))
 	synctest.Test(t, func(t *testing.T) {
 		start := time.Now()
@@ -289,9 +309,27 @@ func runSrvDTLS(t *testing.T, c caseDef) []string {
 			options.WithErrors(func(error) {}),
 			options.WithMessagePool(pool.New(64, 2048)),
 			options.WithPeriodicRunner(func(f func(now time.Time) bool) { tickFn = f }),
-			options.WithOnNewConn(func(cc *udpclient.Conn) { mu.Lock(); conns = append(conns, cc); mu.Unlock() }),
+			options.WithOnNewConn(func(cc *udpclient.Conn) {
+				mu.Lock()
+				idx := len(conns)
+				conns = append(conns, cc)
+				mu.Unlock()
+				if useDefault {
+					cc.AddOnClose(func() {
+						switch idx {
+						case 0:
+							closed = true
+							log.add("close")
+						case 2:
+							log.add("close-talkative")
+						}
+					})
+				}
+			}),
 		}
-		if c.maxRetries < 0 {
+		if useDefault {
+			// nothing: DefaultConfig.CreateInactivityMonitor
+		} else if c.maxRetries < 0 {
 			opts = append(opts, options.WithInactivityMonitor(c.period, onInactive))
 		} else {
 			opts = append(opts, options.WithKeepAlive(uint32(c.maxRetries), c.period*time.Duration(c.maxRetries+1), onInactive))
